@@ -31,6 +31,8 @@ CONSTANTS Reqs,             \* request ids
           DevAllocIgnoresBusy,      \* _alloc hands out busy indices
           DevPutOutsideLock,        \* _dispatch child: result queued before res_lock is taken
           DevDupKillsWatcher,       \* a duplicated result ends the result thread
+          DevStartOutsideLock,      \* _request_cb starts the dispatch process before it
+                                    \* takes the pool lock under which the pid is registered
           DevNoSynthWithoutTimeout, \* _dispatch makes up a result for a silent child only
                                     \* if the request has a timeout
           DevTargetIgnoresMissing,  \* missing exit code counted as success
@@ -43,9 +45,10 @@ VARIABLES st, reg, backlog, seen, mq, wq, cur, polled,
           cores, gpus, slots, pool, resq, wdead, mres, env, sout,
           runningOn, put, back, target, ec, visits,
           cpc, ppc, lk, rdone, act,    \* the dispatch process pair of a request (see below)
+          win,                         \* request whose process runs, pid not yet in the pool
           fate                         \* ghost: what really happened ("ok" | "failed")
 
-dvars == <<cpc, ppc, lk, rdone, act>>
+dvars == <<cpc, ppc, lk, rdone, act, win>>
 vars == <<st, reg, backlog, seen, mq, wq, cur, polled, cores, gpus, slots, pool, resq,
           wdead, mres, env, sout, runningOn, put, back, target, ec, visits, dvars, fate>>
 
@@ -65,7 +68,7 @@ Init ==
   /\ target = [r \in Reqs |-> "none"] /\ ec = [r \in Reqs |-> "unset"]
   /\ visits = [r \in Reqs |-> 0]
   /\ cpc = [r \in Reqs |-> "idle"] /\ ppc = [r \in Reqs |-> "idle"]
-  /\ lk = [r \in Reqs |-> "free"] /\ rdone = [r \in Reqs |-> FALSE] /\ act = "none"
+  /\ lk = [r \in Reqs |-> "free"] /\ rdone = [r \in Reqs |-> FALSE] /\ act = "none" /\ win = "none"
   /\ fate = [r \in Reqs |-> "none"]
 
 (* ------------------------------------------------------------------------ *)
@@ -155,25 +158,37 @@ CodeAlloc(r) == IF DevAllocIgnoresBusy
 
 \* the wait-for-resources poll of _request_cb
 Wait ==
-  /\ cur # "none" /\ ~CodeFits(cur) /\ ~polled
+  /\ cur # "none" /\ win = "none" /\ ~CodeFits(cur) /\ ~polled
   /\ polled' = TRUE
   /\ UNCHANGED <<st, reg, backlog, seen, mq, wq, cur, cores, gpus, slots, pool, resq, wdead,
                  mres, env, sout, runningOn, put, back, target, ec, visits, dvars, fate>>
 
-Start(r) ==
-  /\ cur = r /\ CodeFits(r)
+\* _request_cb: the dispatch process is started and runs from now on; its pid
+\* is registered in the pool in a second step.  Both happen under the pool lock
+\* (_plock), which the result thread needs to take a pid out of the pool.
+StartProc(r) ==
+  /\ cur = r /\ win = "none" /\ CodeFits(r)
   /\ LET a == CodeAlloc(r) IN
      /\ cores' = MarkCores(cores, a.cores, 1) /\ gpus' = MarkGpus(gpus, a.gpus, 1)
      /\ slots' = [slots EXCEPT ![r] = a]
      /\ runningOn' = [runningOn EXCEPT ![r] = a]
-  /\ pool' = pool \cup {r} /\ cur' = "none"
+  /\ win' = r
   /\ st' = [st EXCEPT ![r] = "run"]
-  /\ UNCHANGED <<reg, backlog, seen, mq, wq, polled, resq, wdead, mres, env, sout,
-                 put, back, target, ec, visits, dvars, fate>>
+  /\ UNCHANGED <<reg, backlog, seen, mq, wq, cur, polled, pool, resq, wdead, mres, env, sout,
+                 put, back, target, ec, visits, cpc, ppc, lk, rdone, act, fate>>
+
+RegisterPid(r) ==
+  /\ win = r
+  /\ pool' = pool \cup {r} /\ win' = "none" /\ cur' = "none"
+  /\ UNCHANGED <<st, reg, backlog, seen, mq, wq, polled, cores, gpus, slots, resq, wdead,
+                 mres, env, sout, runningOn, put, back, target, ec, visits,
+                 cpc, ppc, lk, rdone, act, fate>>
+
+PoolLockFree == win = "none" \/ DevStartOutsideLock
 
 \* allocation succeeded, the process could not be started: release, report
 SpawnFails(r) ==
-  /\ cur = r /\ CodeFits(r) /\ r \in MaySpawnFail
+  /\ cur = r /\ win = "none" /\ CodeFits(r) /\ r \in MaySpawnFail
   /\ LET a == CodeAlloc(r) IN
      IF DevNoDeallocOnSpawnFail
      THEN /\ cores' = MarkCores(cores, a.cores, 1) /\ gpus' = MarkGpus(gpus, a.gpus, 1)
@@ -220,7 +235,7 @@ Finish(r) ==
   /\ UNCHANGED <<reg, backlog, seen, mq, wq, cur, polled, cores, gpus, slots, pool, wdead,
                  mres, runningOn, put, back, target, ec, visits, dvars>>
 
-DUnch == UNCHANGED <<reg, backlog, seen, mq, wq, cur, polled, cores, gpus, slots, pool, wdead,
+DUnch == UNCHANGED <<win, reg, backlog, seen, mq, wq, cur, polled, cores, gpus, slots, pool, wdead,
                      mres, sout, runningOn, put, back, target, ec, visits>>
 
 PStart(r) ==
@@ -292,7 +307,7 @@ DispatchStep(r) == PStart(r) \/ CRun(r) \/ CLock(r) \/ CPut(r) \/ CSet(r)
 
 \* result watcher -> _result_cb
 Deliver(r, n) ==
-  /\ ~wdead
+  /\ ~wdead /\ PoolLockFree
   /\ \E x \in resq :
      /\ x.r = r /\ x.n = n
      /\ resq' = resq \ {x}
@@ -315,7 +330,7 @@ Terminated == Done /\ UNCHANGED vars
 
 Sched  == (\E r \in Reqs : SchedIn(r)) \/ Register \/ Unregister
 Master == \E r \in Reqs : Dispatch(r) \/ (\E e \in {"0", "1"} : LocalDone(r, e))
-Worker == \/ \E r \in Reqs : Take(r) \/ Start(r) \/ SpawnFails(r)
+Worker == \/ \E r \in Reqs : Take(r) \/ StartProc(r) \/ RegisterPid(r) \/ SpawnFails(r)
                               \/ Finish(r) \/ DispatchStep(r)
           \/ Wait
           \/ \E r \in Reqs, n \in {1, 2} : Deliver(r, n)
